@@ -4,6 +4,7 @@ import (
 	"encoding/json"
 	"errors"
 	"fmt"
+	"sync"
 
 	"github.com/lidofinance/dc4bc/client/modules/state"
 	"github.com/lidofinance/dc4bc/client/types"
@@ -25,6 +26,9 @@ type OperationRepo interface {
 }
 
 type BaseOperationRepo struct {
+	// mu makes every read-modify-write of the two JSON blobs one step: the poller (PutOperation)
+	// and API requests (DeleteOperation) work on the same repository concurrently
+	mu                           sync.Mutex
 	state                        state.State
 	operationsCompositeKey       string
 	deleteOperationsCompositeKey string
@@ -52,7 +56,10 @@ func NewOperationRepo(s state.State, topic string) (*BaseOperationRepo, error) {
 }
 
 func (r *BaseOperationRepo) PutOperation(operation *types.Operation) error {
-	operations, err := r.GetOperations()
+	r.mu.Lock()
+	defer r.mu.Unlock()
+
+	operations, err := r.getOperations()
 	if err != nil {
 		return fmt.Errorf("failed to getOperations: %w", err)
 	}
@@ -76,6 +83,9 @@ func (r *BaseOperationRepo) PutOperation(operation *types.Operation) error {
 
 // DeleteOperation deletes operation from an operation pool
 func (r *BaseOperationRepo) DeleteOperation(operation *types.Operation) error {
+	r.mu.Lock()
+	defer r.mu.Unlock()
+
 	deletedOperations, err := r.getDeletedOperations()
 	if err != nil {
 		return fmt.Errorf("failed to getDeletedOperations: %w", err)
@@ -95,7 +105,7 @@ func (r *BaseOperationRepo) DeleteOperation(operation *types.Operation) error {
 		return fmt.Errorf("failed to put deleted operations: %w", err)
 	}
 
-	operations, err := r.GetOperations()
+	operations, err := r.getOperations()
 	if err != nil {
 		return fmt.Errorf("failed to getOperations: %w", err)
 	}
@@ -130,6 +140,14 @@ func (r *BaseOperationRepo) GetOperationByID(operationID string) (*types.Operati
 
 // GetOperations returns all operations from an operation pool
 func (r *BaseOperationRepo) GetOperations() (map[string]*types.Operation, error) {
+	r.mu.Lock()
+	defer r.mu.Unlock()
+
+	return r.getOperations()
+}
+
+// getOperations is GetOperations for callers that hold r.mu
+func (r *BaseOperationRepo) getOperations() (map[string]*types.Operation, error) {
 	deletedOperations, err := r.getDeletedOperations()
 	if err != nil {
 		return nil, fmt.Errorf("failed to getDeletedOperations: %w", err)
